@@ -149,6 +149,11 @@ def check_C08(tier, seed):
     keep = ["structs"]
     drive_and_judge(rep, "C08", cases_from_S(exported, "role", "struct-roles", vary_validate=False, o=F.opts(enc=True)), "roles", keep)
     drive_and_judge(rep, "C08", random_shader_cases(rng, 800 if quick else 20000, "rnd", "structs-random"), "random", keep)
+    rc = []
+    for i in range(400 if quick else 8000):
+        S, has_rt = F.role_shader(rng)
+        rc.append({"id": "rrole-%05d" % i, "family": "structs-roles-random", "S": S, "opts": F.opts(enc=True, mv=("rust", "glam")[i % 2])})
+    drive_and_judge(rep, "C08", rc, "roles-random", keep)
     return finish(rep)
 
 
@@ -542,6 +547,12 @@ def check_C01(tier, seed):
     sub = r.cases[::(40 if quick else 4)]
     for i, e in enumerate(sub):
         cases.append({"id": "role-%05d" % i, "family": "compile-roles", "S": e["S"], "opts": dict(ov[(i * 7) % len(ov)], enc=True)})
+    # two vertex input structs whose snake-case names coincide
+    for i, (a, b) in enumerate([("VertexInput", "vertex_input"), ("InstanceData", "Instance_Data"), ("VertexInput", "InstanceInput")]):
+        S = {"structs": [{"name": a, "members": [{"name": "a", "ty": F.VEC4, "io": {"k": "loc", "n": 0}}]}, {"name": b, "members": [{"name": "b", "ty": F.VEC4, "io": {"k": "loc", "n": 1}}]}],
+             "globals": [], "consts": [], "overrides": [], "functions": [],
+             "entries": [{"name": "vs_main", "stage": "vertex", "params": [{"k": "struct", "name": "p", "ty": a}, {"k": "struct", "name": "q", "ty": b}], "result": {"k": "builtin", "b": "position"}, "body": [], "wg": []}]}
+        cases.append({"id": "snake-%d" % i, "family": "compile-ident", "S": S, "opts": F.opts(bmv=True)})
     for i, (n, S) in enumerate(ident_shaders(rng)):
         cases.append({"id": "ident-%03d" % i, "family": "compile-ident", "S": S, "opts": F.opts(bmv=True, enc=True, mv="glam", rustfmt=(i % 2 == 1))})
     re_ = run_mc("MC_Entries.tla", "MC_Entries.cfg", workers=4)
